@@ -12,20 +12,20 @@ PROPERTY = "C14"
 def generate(seed, tier="quick"):
     rnd = tape.sub(seed, PROPERTY, "gen")
     max_n = 120 if tier == "quick" else 300
-    cfg = common.base_config(seed, PROPERTY, rnd, n_libs=1, n_data=1, profile=rnd.choice(["flat", "weak", "informative", "informative", "spike"]))
+    cfg = common.base_config(seed, PROPERTY, rnd, n_libs=1, n_data=2, profile=rnd.choice(["flat", "weak", "informative", "informative", "spike"]))
     lib = cfg["libraries"][0]
     lib["n"] = rnd.choice([1, 2, 3, 5, 8, 13, 21, 34, 55, 89, rnd.randint(1, max_n), rnd.randint(1, max_n)])
     lib["duplicates"] = [d for d in lib["duplicates"] if d[0] < lib["n"] and d[1] < lib["n"]]
-    d = cfg["datasets"][0]
-    if d.get("orbit_from"):
-        d["orbit_from"] = [0, d["orbit_from"][1] % lib["n"]]
+    for d in cfg["datasets"]:
+        if d.get("orbit_from"):
+            d["orbit_from"] = [0, d["orbit_from"][1] % lib["n"]]
     nan_lib = sampling.add_nan_library(rnd, cfg, 0, p=0.2)
     sampling.add_neg_inf_profile(rnd, cfg, 0, p=0.15)
     N = lib["n"]
     ops = []
     for oid in range(rnd.randint(2, 4)):
         p, pname = sampling.gen_path(rnd)
-        op = {"id": oid, "op": "iterative", "data": 0, "lib": 0, "joker": "main", "role": "target"}
+        op = {"id": oid, "op": "iterative", "data": rnd.randrange(len(cfg["datasets"])), "lib": 0, "joker": "main", "role": "target"}
         if nan_lib is not None and rnd.random() < 0.4:
             op["lib"] = nan_lib
         op.update(p)
